@@ -5,7 +5,7 @@ import ast
 import re
 
 from ..model import (AnalysisError, walk_no_nested, dotted, norm, const_str,
-                     fold_const, module_env, NotConst)
+                     fold_const, module_env, NotConst, kwarg)
 from .. import rx
 
 EXPLANATION = (
@@ -167,6 +167,7 @@ def run(repo, rep, tier):
     _r7_instance_values(repo, rep)
     _r8_symbols_consumed(repo, rep)
     _r9_array_braces(repo, rep)
+    _r10_values_not_defaulted_by_truth(repo, rep)
     # ---- R6 ---------------------------------------------------------------
     for cname in MOF_CLASSES:
         cls = repo.cls(OBJ, cname)
@@ -824,3 +825,74 @@ def _r9_array_braces(repo, rep):
     if r9.sites < 3:
         raise AnalysisError('C08.R9: only %d array initialiser sites'
                             % r9.sites)
+
+
+def _r10_values_not_defaulted_by_truth(repo, rep):
+    """C08.R10: a value written in the MOF is replaced by a default only
+    when it is absent (`is None`), never because it is false.  0, 0.0, ""
+    and { } are values tomof() writes and the compiler accepts; a grammar
+    action that computes the value of the object it builds as `given or
+    default` - or re-binds it under `if not value:` - gives the element the
+    default (or NULL) instead of the written value."""
+    from ..cfg import stmt_facts
+    r10 = rep.rule('C08.R10', 'values handed to CIM object constructors in '
+                   'grammar actions are not defaulted by truthiness')
+    m = repo.module(MOF)
+    CTORS = ('CIMQualifier', 'CIMProperty', 'CIMParameter',
+             'CIMQualifierDeclaration', 'CIMMethod')
+    n = 0
+    for name, f in sorted(m.functions.items()):
+        if not name.startswith('p_'):
+            continue
+        for c in walk_no_nested(f.node):
+            if not (isinstance(c, ast.Call) and dotted(c.func) in CTORS):
+                continue
+            cls = repo.find_class(dotted(c.func))
+            init = cls.find_method('__init__') if cls else None
+            if init is None:
+                continue
+            ps = [p_ for p_ in init.params if p_ != 'self']
+            if 'value' not in ps:
+                continue
+            vi = ps.index('value')
+            v = c.args[vi] if len(c.args) > vi else kwarg(c, 'value')
+            if v is None:
+                continue
+            n += 1
+            r10.sites += 1
+            r10.functions.add(f.fq)
+            bad = []
+
+            def value_ors(e):
+                """`a or b` in value position of e"""
+                if isinstance(e, ast.BoolOp) and isinstance(e.op, ast.Or):
+                    return [e]
+                if isinstance(e, ast.IfExp):
+                    return value_ors(e.body) + value_ors(e.orelse)
+                return []
+            bad += [(x, 'or') for x in value_ors(v)]
+            if isinstance(v, ast.Name):
+                for st, (facts, _t) in stmt_facts(f.node).items():
+                    if not (isinstance(st, ast.Assign) and
+                            any(isinstance(t, ast.Name) and t.id == v.id
+                                for t in st.targets)):
+                        continue
+                    bad += [(x, 'or') for x in value_ors(st.value)]
+                    for t, pol in facts:
+                        if isinstance(t, ast.Name) and t.id == v.id:
+                            bad.append((st, 'if %s%s' % (
+                                '' if pol else 'not ', v.id)))
+            r10.ob(not bad, '%s|%s' % (name, norm(c, 50)),
+                   {'value': norm(v, 40)})
+            for x, how in bad[:1]:
+                rep.finding(r10, name, norm(x, 70), 'truthiness-default',
+                            MOF, x.lineno,
+                            'the value of the %s built here is decided by '
+                            'the truth of the written value (%s): a written '
+                            '0, 0.0, "" or { } is replaced by the default / '
+                            'NULL, so the element tomof() printed does not '
+                            'come back with its value'
+                            % (dotted(c.func), how))
+    if n < 4:
+        raise AnalysisError('C08.R10: only %d constructor calls with a value '
+                            'in the grammar actions' % n)
